@@ -14,7 +14,7 @@ package astnormalization
 //@   at call jsonparser.Get: ghost g_looked = true
 //@   at call jsonparser.Get: ghost g_provided = result3 == nil
 //@   at call sjson.SetRawBytes: assert {a.provided.value.is.never.overwritten.by.the.default} g_looked && !g_provided
-//@   modifies *
+//@   modifies *, count(validationError)
 //@   safety no-bounds
 //@   loop 0:
 //@     invariant g_looked && !g_provided
